@@ -285,7 +285,10 @@ def sb_ESC(eng, path, s):
         if not isinstance(p, str) and p.info and p.info.get("lenclass"):
             lenclass = p.info["lenclass"]
     cats = {"str1": [respec.ATOM], "str2": [respec.BRANCH], None: [respec.BRANCH, respec.ATOM]}[lenclass]
-    return SStr([Atom(z3.Function("ESC", StrS, StrS)(s.term()), "esc", {"key": repr(key), "cats": cats, "of": s})])
+    of_key = None
+    if len(s.pieces) == 1 and not isinstance(s.pieces[0], str) and isinstance(s.pieces[0].info, dict):
+        of_key = s.pieces[0].info.get("key")
+    return SStr([Atom(z3.Function("ESC", StrS, StrS)(s.term()), "esc", {"key": repr(key), "cats": cats, "of": s, "of_key": of_key})])
 
 
 def sb_TYPEV(eng, path, p):
@@ -654,7 +657,17 @@ def ret_pregex(eng, path, env, fi, contract):
     if same is not None:
         cond = eng.truth(eval_spec(eng, same, env, path, fi), path)
         if path.branch(cond, f"returns-self {fi.qualname}"):
-            return env["self"]
+            # the contract promises the same TEXT (not object identity): a fresh value with the operand's fields
+            src = env["self"]
+            key = (fi.qualname, "copy", src.oid)
+            if key in path.memo:
+                return path.memo[key]
+            obj = Obj(pregex_class(eng), "pregex", label="copy:" + str(src.label))
+            path.fields(obj).update({k: v for k, v in path.fields(src).items()})
+            path.fields(obj)["_Pregex__compiled"] = None
+            obj.info = getattr(src, "info", None)
+            path.memo[key] = obj
+            return obj
     ref = eval_spec(eng, c["ref"], env, path, fi) if c.get("ref") else None
     key = (fi.qualname, tuple(value_key(v) for v in env.values()))
     if key in path.memo:
